@@ -131,10 +131,33 @@ func evalC02Decode(c *Ctx, rp c02Replay) {
 func forEachHybrid(c *Ctx, cb func(tok, label, role, layout string)) {
 	roles := []byte{'O', 'A', 'U', 'N', 'C', 'X'}
 	typed := []string{"operator", "account", "user", "activation", "authorization_request", "authorization_response"}
+	type hb struct {
+		k1   string
+		body []byte
+	}
+	var bases []hb
 	for _, k1 := range typed {
 		base, err := validToken(c.R, k1, "v2")
 		must(err)
 		payloadB, _ := b64.DecodeString(strings.Split(base, ".")[1])
+		bases = append(bases, hb{k1, payloadB})
+		if k1 == "account" {
+			// a payload only the version-2 reader can parse (a scoped signing key is an object where version 1 has a
+			// string): whichever reader a hybrid ends up with, kind, version and signed text must still agree
+			a := jwt.NewAccountClaims(pubOf(kpN('A', 2)))
+			us := jwt.NewUserScope()
+			us.Key = pubOf(kpN('A', 9))
+			us.Role = "r"
+			a.SigningKeys.AddScopedSigner(us)
+			a.Mappings = jwt.Mapping{"m.x": []jwt.WeightedMapping{{Subject: "n.y", Weight: 30}}}
+			if t2, e2 := a.Encode(kpN('O', 0)); e2 == nil {
+				pb2, _ := b64.DecodeString(strings.Split(t2, ".")[1])
+				bases = append(bases, hb{k1, pb2})
+			}
+		}
+	}
+	for _, bs := range bases {
+		k1, payloadB := bs.k1, bs.body
 		for _, k2 := range typed {
 			for _, ver := range []int{-1, 1, 2} {
 				for _, role := range roles {
